@@ -296,6 +296,72 @@ func checkC12(p *Prog, r *Report) {
 		rClose.Unproven("watchIOBEvents", token.NoPos, "event consumer not found")
 	}
 
+	/* 2b. The consumer ends when serving does: the context it waits on is
+	the one the error group cancels when one of its functions returns (not the
+	caller's, which nothing cancels when the listener is closed on purpose) —
+	otherwise Do, and with it the program, never returns after -one-shell. */
+	if do := p.Func(hsrvPkg, "Server", "Do"); nil != do && nil != w {
+		var gctx ssa.Value
+		eachInstr(do, func(i ssa.Instruction) {
+			if c, ok := i.(*ssa.Call); ok && strings.HasSuffix(calleeName(c.Common()), "errgroup.WithContext") {
+				gctx = extractOf(c, 1)
+			}
+		})
+		if nil == gctx {
+			rClose.Unproven(fnName(do)+":group-context", do.Pos(), "no error group with its own context found in Do")
+		} else {
+			n := 0
+			check := func(at ssa.Instruction, ctxArg ssa.Value) {
+				n++
+				c := fmt.Sprintf("%s:consumer-ends-with-serving#%d", fnName(do), n)
+				if p.resolveUp(resolveCell(ctxArg)) == gctx {
+					rClose.OK(c, posOf(at), "the event consumer waits on the error group's context")
+				} else {
+					rClose.Bad(c, posOf(at), "the event consumer waits on %s, not on the error group's context: when the listener has been closed on purpose and serving returns, the consumer keeps waiting and Do never returns", describeValue(ctxArg))
+				}
+			}
+			if w == do || w.Parent() == do {
+				/* Written out in Do (or in a literal of Do): the context
+				of its waits. */
+				for _, sel := range selectsIn(w) {
+					if idx, cx := hasDoneArm(sel); idx >= 0 {
+						check(sel, cx)
+					}
+				}
+			} else {
+				for _, f := range withAnons(do) {
+					eachInstr(f, func(i ssa.Instruction) {
+						cc := callCommon(i)
+						if nil == cc {
+							return
+						}
+						/* s.watch(ctx, …) or eg.GoContext(ctx, s.watch…). */
+						if cc.StaticCallee() == w {
+							for _, a := range cc.Args {
+								if typeIs(a.Type(), "context", "Context") {
+									check(i, a)
+								}
+							}
+							return
+						}
+						for k, a := range cc.Args {
+							if cf, _ := closureOf(a); nil != cf && unbound(p, cf) == w && k > 0 {
+								for _, b := range cc.Args[:k] {
+									if typeIs(b.Type(), "context", "Context") {
+										check(i, b)
+									}
+								}
+							}
+						}
+					})
+				}
+			}
+			if 0 == n {
+				rClose.Unproven(fnName(do)+":consumer-ends-with-serving", do.Pos(), "how the event consumer is started was not recognised")
+			}
+		}
+	}
+
 	/* 3. Clean exit. */
 	sh := p.Func(hsrvPkg, "Server", "serveHTTP")
 	if nil == sh {
